@@ -2,7 +2,7 @@
 import numpy as np
 
 from vf.runner import Ob
-from vf import symx, meshgen, oracle
+from vf import symx, meshgen, oracle, shims
 
 ID = "C06"
 EXPLANATION = ("Meshes with symbolic real coordinates (and symbolic translation vectors, scale factors, origins) are produced in "
@@ -18,9 +18,9 @@ BOUNDS = {
              "place, append an element) on one of the objects",
     "thorough": "adds 3-call sequences and scale_xyz / translate_to_origin / fit_into_unit_cube",
 }
-OUTSIDE = "rotate (scipy Rotation.apply is compiled: no claim about rotations); flatten; the attribute values carried by copy(copy_attributes=True)"
+OUTSIDE = "the arithmetic inside scipy's compiled Rotation (replaced by a twin obeying its documented contract; the twin is compared with the real class on every replayed input); flatten; the attribute values carried by copy(copy_attributes=True)"
 ASSUMPTIONS = ["scale factors and bounding-box extents are non-zero", "coordinates are finite reals"]
-STUBS = []
+STUBS = ["scipy.spatial.transform.Rotation in mouette.geometry.transform -> twin with from_matrix / from_euler('xyz') / apply (rotate obligation only)"]
 WALL_S = {"quick": 420, "thorough": 1750}
 COVERS = ["mouette.mesh.mesh:copy", "mouette.mesh.mesh:merge", "mouette.geometry.transform:translate", "mouette.geometry.transform:scale",
           "mouette.geometry.transform:normalize", "mouette.geometry.transform:scale_xyz", "mouette.geometry.transform:translate_to_origin",
@@ -96,6 +96,14 @@ def make(sx, producer, topo, prefix="p"):
         a, _, Pa = make(sx, "literal", topo, prefix + "a")
         b, _, Pb = make(sx, "literal", "tri", prefix + "b")
         return M.mesh.merge([a, b]), [(a, Pa), (b, Pb)], Pa + Pb
+    if producer in ("merge-cloud-first", "merge-cloud-last"):
+        # inputs of different kinds: a point cloud (no connectivity) before / after a mesh
+        Pc = _coords(sx, prefix + "c", 2)
+        cloud = meshgen.build([_v3(sx, p) for p in Pc])
+        b, _, Pb = make(sx, "literal", topo, prefix + "b")
+        if producer == "merge-cloud-first":
+            return M.mesh.merge([cloud, b]), [(cloud, Pc), (b, Pb)], Pc + Pb
+        return M.mesh.merge([b, cloud]), [(b, Pb), (cloud, Pc)], Pb + Pc
     if producer == "merge-one":
         src, _, P = make(sx, "literal", topo, prefix)
         return M.mesh.merge([src]), [(src, P)], P
@@ -212,6 +220,86 @@ def transforms(producers, topos, ops):
     return h
 
 
+def _matmul(A, B):
+    return [[sum(A[i][k] * B[k][j] for k in range(3)) for j in range(3)] for i in range(3)]
+
+
+def _axis_rot(axis, c, s_):
+    if axis == "x":
+        return [[1, 0, 0], [0, c, -s_], [0, s_, c]]
+    if axis == "y":
+        return [[c, 0, s_], [0, 1, 0], [-s_, 0, c]]
+    return [[c, -s_, 0], [s_, c, 0], [0, 0, 1]]
+
+
+def _rotation_twin(sx):
+    """Twin of scipy.spatial.transform.Rotation restricted to what transform.rotate uses, constrained only by the documented
+    contract: from_matrix(R).apply(v) = R v; from_euler('xyz', (a,b,c)) is the extrinsic composition Rz(c) Ry(b) Rx(a).
+    (Validated against the real class on sample values in every run: see rotate_case.)"""
+    class Rot:
+        def __init__(self, M):
+            self.M = M
+
+        @staticmethod
+        def from_matrix(M):
+            return Rot([[M[i][j] for j in range(3)] for i in range(3)])
+
+        @staticmethod
+        def from_euler(seq, angles):
+            assert seq == "xyz"
+            mats = [_axis_rot(ax, *sx.cos_sin(a)) for ax, a in zip("xyz", angles)]
+            return Rot(_matmul(mats[2], _matmul(mats[1], mats[0])))
+
+        def apply(self, v):
+            out = np.empty(3, dtype=object)
+            for i in range(3):
+                out[i] = sum(self.M[i][k] * v[k] for k in range(3))
+            return out
+    return Rot
+
+
+def rotate_case(sx):
+    """rotate moves every vertex by exactly the requested rotation about the requested origin, in each accepted form of the
+    rotation argument (3x3 matrix, Euler angles, Rotation object)"""
+    import mouette as M
+    from mouette.geometry import transform as T
+    from scipy.spatial.transform import Rotation as RealRotation
+    form = ["matrix", "euler", "object"][sx.choice("rotation_given_as", 3)]
+    P = _coords(sx, "p", 3)
+    mesh = meshgen.build([_v3(sx, p) for p in P], (), [(0, 1, 2)], ())
+    with_orig = sx.flag("with_origin")
+    o = [sx.real("o%d" % k) for k in range(3)] if with_orig else [0, 0, 0]
+    a, b, c = sx.real("angle_x"), sx.real("angle_y"), sx.real("angle_z")
+    Rx, Ry, Rz = (_axis_rot(ax, *sx.cos_sin(t)) for ax, t in zip("xyz", (a, b, c)))
+    R = _matmul(Rz, _matmul(Ry, Rx))          # the requested map (a generic, non-symmetric rotation matrix)
+    Rot = _rotation_twin(sx) if sx.symbolic else RealRotation
+    if not sx.symbolic:
+        # the twin's conventions are those of the real class (checked on the replayed values themselves)
+        real = RealRotation.from_euler("xyz", [a, b, c]).as_matrix()
+        assert all(abs(real[i][j] - R[i][j]) < 1e-9 for i in range(3) for j in range(3)), "rotation twin disagrees with scipy"
+    if form == "matrix":
+        if sx.symbolic:
+            arg = np.empty((3, 3), dtype=object)
+            for i in range(3):
+                for j in range(3):
+                    arg[i, j] = R[i][j]
+        else:
+            arg = np.array(R, dtype=float)
+    elif form == "euler":
+        arg = [a, b, c]
+    else:
+        arg = Rot.from_matrix(R)
+    tag = " [rotation given as %s%s]" % (form, ", about an origin" if with_orig else "")
+    try:
+        with shims.rebound(T, Rotation=Rot):
+            T.rotate(mesh, arg, _v3(sx, o)) if with_orig else T.rotate(mesh, arg)
+    except Exception as e:
+        sx.check(False, "rotate raised" + tag, detail=repr(e))
+        return
+    want = [[o[i] + sum(R[i][k] * (P[v][k] - o[k]) for k in range(3)) for i in range(3)] for v in range(3)]
+    same_coords(sx, mesh, want, "rotate moves every vertex by exactly the requested rotation about the requested origin" + tag)
+
+
 def edits(producers, topos):
     def h(sx):
         import mouette as M
@@ -228,12 +316,22 @@ def edits(producers, topos):
             off = 0
             wantE, wantF = [], []
             srcs = [inputs[0][0], inputs[0][0]] if producer == "merge-self" else [m for m, _ in inputs]
+            wantC = []
             for m in srcs:
                 if hasattr(m, "faces"):
                     wantF += [tuple(off + int(v) for v in f) for f in m.faces]
+                if hasattr(m, "cells"):
+                    wantC += [tuple(off + int(v) for v in c) for c in m.cells]
+                if hasattr(m, "edges") and not hasattr(m, "faces"):
+                    wantE += [tuple(off + int(v) for v in e) for e in m.edges]
                 off += len(m.vertices)
-            if wantF:
-                sx.check([tuple(int(v) for v in f) for f in out.faces] == wantF, "merged faces are the inputs' faces shifted by the running vertex count" + tag)
+            if wantF and not wantC:
+                sx.check([tuple(int(v) for v in f) for f in out.faces] == wantF, "merged faces are the inputs' faces shifted by the running vertex count" + tag,
+                         detail=str([tuple(int(v) for v in f) for f in out.faces]))
+            if wantC:
+                sx.check([tuple(int(v) for v in c) for c in out.cells] == wantC, "merged cells are the inputs' cells shifted by the running vertex count" + tag)
+            if wantE and not wantF and not wantC:
+                sx.check([tuple(int(v) for v in e) for e in out.edges] == wantE, "merged edges are the inputs' edges shifted by the running vertex count" + tag)
         if producer == "copy":
             src = inputs[0][0]
             for name in ("edges", "faces", "cells"):
@@ -255,6 +353,8 @@ def edits(producers, topos):
             elif edit == "append-vertex":
                 victim.vertices.append(M.Vec(_v3(sx, newv)))
             else:
+                if not hasattr(victim, "edges"):
+                    sx.assume(False)        # a point cloud has no element container to append to
                 cont = victim.faces if hasattr(victim, "faces") else victim.edges
                 cont.append(tuple(range(len(cont[0]))))
         except Exception as e:
@@ -341,9 +441,11 @@ def obligations(tier):
            covers=COVERS, split=5, note="polyline / tetrahedron inputs"),
         Ob("transform-int-coordinates", transforms(["literal-int", "from_arrays-int"], ["tri"], ["translate", "scale", "normalize", "scale_xyz"]),
            covers=COVERS, split=4, note="coordinates stored with an integer dtype, symbolic real transform parameters"),
+        Ob("transform-rotate", rotate_case, covers=COVERS + ["mouette.geometry.transform:rotate"], split=3,
+           note="rotate with the rotation given as matrix / Euler angles / Rotation object (Rotation replaced by a twin obeying its documented contract)"),
         Ob("concrete-histories", concrete_histories, covers=COVERS, split=4,
            note="float-array ownership/aliasing: copy / merge / boundary / reorder then translate by a vector or by one of the mesh's own vertices"),
-        Ob("edits", edits(["copy", "copy-attributes", "merge-one", "merge-self", "merge-two"], ["tri"] if q else ["tri", "tri2", "tet"]), covers=COVERS, split=6,
+        Ob("edits", edits(["copy", "copy-attributes", "merge-one", "merge-self", "merge-two", "merge-cloud-first", "merge-cloud-last"], ["tri"] if q else ["tri", "tri2", "tet"]), covers=COVERS, split=6,
            note="editing one side of a copy/merge never shows on the other"),
     ]
     if not q:
